@@ -309,13 +309,13 @@ func escCases(r *rand.Rand, n int, maxBytes int) []vcase {
 		}
 	}
 	// length sweep with escapes at window seams
-	maxLen := 300
+	maxLen := 640 // beyond the 448/512-byte padding limits of the string parser
 	if n >= 5000 {
 		maxLen = 4096
 	}
 	escs := []string{"\\n", "\\u00e9", "\\ud83d\\ude00", "\\\\", "\\\"", "é", "😀"}
 	for L := 0; L <= maxLen; L++ {
-		if L > 300 && L < 4000 && L%13 != 0 && n < 50000 {
+		if L > 640 && L < 4000 && L%13 != 0 && n < 50000 {
 			continue
 		}
 		var body []byte
